@@ -436,8 +436,8 @@ theorem dropNullable_toV3S {V : Type} (s : Sch V) (h : hasXnull s = false) : dro
     · simp only [hs, if_false] at h
       simp [toV3Kids, dropNullableKids, hs, ihc h.1, ihr h.2]
 
-/-- the form field fromV3RequestBodies keeps (the one of the last form media type) is the one a single pass
-    reads — outside F-C17-16 (both form media types and `x-nullable` inside the items) -/
+/-- a form field read by a first pass (`tw = false`, what fromV3RequestBodies keeps since the repair of F-C17-16) is
+    the one `fromV3FormProp` describes; a later pass reads the same when the items carry no `x-nullable` -/
 theorem fromV3FormPropT_eq {V : Type} (tw : Bool) (R : List String) (p : Param2 V) (hnb : p.items.all noBinary2 = true)
     (hx : tw = false ∨ p.items.any hasXnull = false) :
     fromV3FormPropT tw [] R p.name (clearReq (toV3FormProp p)) = fromV3FormProp R p.name (clearReq (toV3FormProp p)) := by
@@ -455,15 +455,16 @@ theorem fromV3FormPropT_eq {V : Type} (tw : Bool) (R : List String) (p : Param2 
     FromV3RequestBodyFormData, `bodyOrRefParameters` is appended to -/
 theorem requestBodiesUpdates_is_code : KinModel.Gen.requestBodiesUpdates = requestBodiesUpdates := by decide
 
-/-- **form fields are not multiplied by the media types**: whatever the passes of the media-type loop compute, the
-    code's update statement of `formParameters` keeps exactly the last pass (with `append` in its place a form body
-    under both form media types would yield every form parameter twice) -/
-theorem formParameters_last_pass {α : Type} (passes : List (List α)) (last : List α) :
-    loopResult (updatesOf KinModel.Gen.requestBodiesUpdates "formParameters") (passes ++ [last]) = last := by
+/-- **form fields are not multiplied by the media types**: whatever the passes of the media-type loop would compute,
+    the code's update statement of `formParameters` (`if formParameters == nil`, F-C17-16 repaired) keeps exactly the
+    first pass (with `append` in its place a form body under both form media types would yield every form parameter
+    twice; with a plain assignment the last pass, made after the first has cleared `nullable` on the items) -/
+theorem formParameters_first_pass {α : Type} (first : List α) (passes : List (List α)) :
+    loopResult (updatesOf KinModel.Gen.requestBodiesUpdates "formParameters") (first :: passes) = first := by
   rw [requestBodiesUpdates_is_code]
-  have : updatesOf requestBodiesUpdates "formParameters" = ["replace:FromV3RequestBodyFormData"] := by decide
+  have : updatesOf requestBodiesUpdates "formParameters" = ["init:FromV3RequestBodyFormData"] := by decide
   rw [this]
-  simp [loopResult, List.foldl_append]
+  simp [loopResult]
 
 theorem dropNullable_idem {V : Type} (s : Sch V) : dropNullable (dropNullable s) = dropNullable s := by
   refine (Sch.induct (P := fun s => dropNullable (dropNullable s) = dropNullable s)
@@ -509,66 +510,52 @@ theorem fromV3FormFields_dropItems {V : Type} (tw : Bool) (bin R : List String) 
     simp only [fromV3FormFields] at ih ⊢
     cases sl <;> simp [fromV3FormPropT_dropItems, ih]
 
-theorem formPasses_fold {V : Type} (bin R : List String) (n : Nat) :
-    ∀ (kids : List (Slot × Sch V)) (init : List (PRef2 V)),
-      (formPasses bin R (n + 1) kids).foldl (fun _ r => r) init = fromV3FormFields (decide (n + 1 ≥ 2)) bin R kids := by
-  induction n with
-  | zero => intro kids init; simp [formPasses]
-  | succ n ih =>
-    intro kids init
-    rw [formPasses, List.foldl_cons, ih]
-    rw [fromV3FormFields_dropItems]
-    simp
-
-/-- **the media-type loop of fromV3RequestBodies, any number of form media types** (a sequence of
-    FromV3RequestBodyFormData passes over one form schema object, each leaving `nullable` cleared on the items it
-    visited, combined by the code's own update statement of `formParameters`): the form parameters that come back are
-    those of one pass — each form field once — read from the schema as the first pass left it when there are two
-    or more passes. This is what `fromV3Body` uses (`fromV3FormFields (formTwice mimes)`). -/
+/-- **the media-type loop of fromV3RequestBodies, any number of form media types** (FromV3RequestBodyFormData passes
+    over one form schema object, each of which would leave `nullable` cleared on the items it visited, combined by the
+    code's own update statement of `formParameters`): the form parameters that come back are those of the first pass
+    — each form field once, read from the schema as ToV3 built it -/
 theorem formLoop_any_number_of_passes {V : Type} (bin R : List String) (n : Nat) (kids : List (Slot × Sch V)) :
     loopResult (updatesOf KinModel.Gen.requestBodiesUpdates "formParameters") (formPasses bin R (n + 1) kids) =
-    fromV3FormFields (decide (n + 1 ≥ 2)) bin R kids := by
-  rw [requestBodiesUpdates_is_code]
-  have : updatesOf requestBodiesUpdates "formParameters" = ["replace:FromV3RequestBodyFormData"] := by decide
-  rw [this]
-  simp only [loopResult, beq_self_eq_true, if_true]
-  exact formPasses_fold bin R n kids []
+    fromV3FormFields false bin R kids := by
+  rw [formPasses, formParameters_first_pass]
 
 /-- the loop over the form media types of a request body is what the model of `fromV3Body` computes in one step -/
 theorem formLoop_is_fromV3Body {V : Type} (bin R : List String) (mimes : List String) (kids : List (Slot × Sch V))
     (h : (mimes.filter isFormMime).length ≠ 0) :
     loopResult (updatesOf KinModel.Gen.requestBodiesUpdates "formParameters")
       (formPasses bin R (mimes.filter isFormMime).length kids) =
-    fromV3FormFields (formTwice mimes) bin R kids := by
+    fromV3FormFields false bin R kids := by
   cases hn : (mimes.filter isFormMime).length with
   | zero => exact absurd hn h
-  | succ n =>
-    rw [formLoop_any_number_of_passes]
-    simp [formTwice, hn]
+  | succ n => exact formLoop_any_number_of_passes bin R n kids
 
-/-- witness (F-C17-16, FormItemsNullableLost): an array form parameter whose items carry `x-nullable: true`, under
-    both form media types — the form field kept by fromV3RequestBodies is the one of the second pass, whose items
-    have lost `x-nullable`; under one form media type they keep it -/
-theorem formItemsTwice_witness :
+/-- regression (F-C17-16, repaired; formerly `formItemsTwice_witness`, the input of corpus f16): an array form
+    parameter whose items carry `x-nullable: true`, under both form media types — what the media-type loop keeps
+    under the code's update statement is the field of the first pass, whose items keep `x-nullable` (model = spec on
+    the former witness); the second pass, which the former code kept, had lost it -/
+theorem formItemsTwice_regression :
     let p : Param2 Nat := { name := "l", loc := "formData", required := false, cons := { ty := some "array" },
                             items := some (.node { ty := some "string", xnull := true } []), schema := none }
-    let back : Bool → Option Bool := fun tw =>
-      match fromV3FormPropT tw [] [] "l" (clearReq (toV3FormProp p)) with
+    let xn : PRef2 Nat → Option Bool := fun q => match q with
       | .val q => q.items.map hasXnull
       | .ref _ _ => none
+    let kids : List (Slot × Sch Nat) := [(Slot.prop "l", clearReq (toV3FormProp p))]
     formItemsTwice ["multipart/form-data", "application/x-www-form-urlencoded"] (.val p) = true ∧
-    formItemsTwice ["multipart/form-data"] (.val p) = false ∧
-    back false = some true ∧ back true = some false := by
-  simp [formItemsTwice, formTwice, isFormMime, hasXnull, hasXnullKids, fromV3FormPropT, clearReq, toV3FormProp, kidItems,
-    toV3S, toV3Kids, toV3Hd, fileToBinary, dropNullable, dropNullableKids, fromV3SO, fromV3Hd, fromV3KidsO, conv]
+    (loopResult (updatesOf KinModel.Gen.requestBodiesUpdates "formParameters") (formPasses [] [] 2 kids)).map xn = [some true] ∧
+    (fromV3FormFields true [] [] kids).map xn = [some false] := by
+  intro p xn kids
+  rw [formLoop_any_number_of_passes]
+  simp [p, xn, kids, formItemsTwice, formTwice, isFormMime, hasXnull, hasXnullKids, fromV3FormFields, fromV3FormPropT, clearReq,
+    toV3FormProp, kidItems, toV3S, toV3Kids, toV3Hd, fileToBinary, dropNullable, dropNullableKids, fromV3SO, fromV3Hd,
+    fromV3KidsO, conv]
 
-/-- non-vacuity of `formBody_back`'s hypothesis outside F-C17-16: both form media types, an array form parameter
-    whose items have constraints but no `x-nullable` -/
+/-- non-vacuity of the round-trip fragment on the former class of F-C17-16: both form media types, an array form
+    parameter whose items carry `x-nullable: true` -/
 example :
     let p : Param2 Nat := { name := "l", loc := "formData", required := true, cons := { ty := some "array" },
-                            items := some (.node { ty := some "string" } []), schema := none }
+                            items := some (.node { ty := some "string", xnull := true } []), schema := none }
     formTwice ["application/x-www-form-urlencoded", "multipart/form-data"] = true ∧
-    formItemsTwice ["application/x-www-form-urlencoded", "multipart/form-data"] (.val p) = false ∧
+    formItemsTwice ["application/x-www-form-urlencoded", "multipart/form-data"] (.val p) = true ∧
     inputOKFBack ["application/x-www-form-urlencoded", "multipart/form-data"] (.val p) = true := by
   decide
 
@@ -578,8 +565,7 @@ theorem formBody_back {V : Type} (env : Env3 V) (cs : List String) (fps : List (
     (hn : nodupKeys (fps.map (fun p => (p.name, toV3FormProp p))) = true)
     (hl : ∀ p ∈ fps, p.loc = "formData") (hi3 : ∀ p ∈ fps, itemsOK3 p.items = true)
     (hib : ∀ p ∈ fps, itemsOKBack p.items = true) (hnb : ∀ p ∈ fps, p.items.all noBinary2 = true)
-    (hf : ∀ p ∈ fps, formFmtOK p = true) (hm : cs.any isFormMime = true)
-    (hx : ∀ p ∈ fps, formItemsTwice cs (.val p) = false) :
+    (hf : ∀ p ∈ fps, formFmtOK p = true) (hm : cs.any isFormMime = true) :
     (fromV3Body [] sh nm (.val (formBody env cs (formMap (fps.map (fun p => (p.name, toV3FormProp p))))))).map inputA2 =
     fps.map (fun p => inputA2 (.val p)) := by
   obtain ⟨hmi, hsc, hnd3⟩ := formBody_shape env cs fps hn
@@ -595,11 +581,7 @@ theorem formBody_back {V : Type} (env : Env3 V) (cs : List String) (fps : List (
   have hc := required_names (fps.map (fun p => (p.name, toV3FormProp p, propRequired p.name (toV3FormProp p)))) hnd3
     p.name (toV3FormProp p) (propRequired p.name (toV3FormProp p)) (List.mem_map.mpr ⟨p, hp, rfl⟩)
   simp only [List.map_map, Function.comp_def] at hc
-  have hx' : formTwice cs = false ∨ p.items.any hasXnull = false := by
-    have := hx p hp
-    simp only [formItemsTwice, hl p hp, beq_self_eq_true, Bool.true_and, Bool.and_eq_false_iff] at this
-    exact this
-  simp only [Function.comp_apply, fromV3FormPropT_eq _ _ p (hnb p hp) hx']
+  simp only [Function.comp_apply, fromV3FormPropT_eq false _ p (hnb p hp) (Or.inl rfl)]
   exact roundtripForm _ p (hl p hp) (by rw [hc, hreq]) (hib p hp) (hf p hp)
 
 theorem formVals_cons_back {V : Type} (cs : List String) (q : PRef2 V) (rest : List (PRef2 V))
@@ -624,8 +606,7 @@ theorem inputs_split3_back {V : Type} (cbs : List (String × BRef3 V)) (bks : Li
       (ps2.map inputA2 ++
         ((splitP3 (l.map (toV3P { cbodies := cbs, cschemas := [] } cs))).2.1.flatMap (fromV3Body [] false "body")).map inputA2 ++
         (formVals l).map (fun p => inputA2 (.val p))).Perm (l.map inputA2)) ∧
-    (∀ p ∈ formVals l, itemsOKBack p.items = true ∧ p.items.all noBinary2 = true ∧ formFmtOK p = true ∧
-      formItemsTwice cs (.val p) = false) := by
+    (∀ p ∈ formVals l, itemsOKBack p.items = true ∧ p.items.all noBinary2 = true ∧ formFmtOK p = true) := by
   induction l with
   | nil => exact ⟨⟨[], rfl, by simp [splitP3, formVals]⟩, by simp [formVals]⟩
   | cons q rest ih =>
@@ -646,13 +627,12 @@ theorem inputs_split3_back {V : Type} (cbs : List (String × BRef3 V)) (bks : Li
           have i2' := i2
           simp only [List.append_assoc] at i2'
           exact (List.perm_middle).trans (List.Perm.cons _ i2')
-    · have hf2 : formOKBack q = true ∧ formItemsTwice cs q = false := by
+    · have hf : formOKBack q = true := by
         have := h.1
-        simp only [inputOKFBack, Bool.or_eq_true, Bool.and_eq_true, Bool.not_eq_true'] at this
+        simp only [inputOKFBack, Bool.or_eq_true] at this
         rcases this with h1 | h1
         · exact absurd h1 hq
         · exact h1
-      obtain ⟨hf, hft⟩ := hf2
       cases q with
       | ref _ _ => simp [formOKBack] at hf
       | val p =>
@@ -667,7 +647,7 @@ theorem inputs_split3_back {V : Type} (cbs : List (String × BRef3 V)) (bks : Li
         · intro p' hp'
           simp only [formVals, hf.1.1.1, if_true, List.mem_cons] at hp'
           rcases hp' with rfl | hp'
-          · exact ⟨hf.1.1.2, hf.1.2, hf.2, hft⟩
+          · exact ⟨hf.1.1.2, hf.1.2, hf.2⟩
           · exact i4 p' hp'
 
 /-- **every operation with a body parameter or form parameters comes back saying the same** -/
@@ -728,7 +708,7 @@ theorem op_inputs_roundtrip {V : Type} (cbs : List (String × BRef3 V)) (bks : L
       · simp [opA2, meta_roundtrip]
     | cons f fs =>
       have hfi := hform hnd (fun p hp => (s4 p hp).1) (fun p hp => (s4 p hp).2) (fun p hp => (b4 p hp).1)
-        (fun p hp => (b4 p hp).2.1) (fun p hp => (b4 p hp).2.2.1) hmime (fun p hp => (b4 p hp).2.2.2)
+        (fun p hp => (b4 p hp).2.1) (fun p hp => (b4 p hp).2.2) hmime
       rw [hfv] at hfi
       simp only [hfv, List.flatMap_nil, List.map_nil, List.append_nil] at b2 ⊢
       refine ⟨_, rfl, ?_⟩
